@@ -10,6 +10,9 @@ def pipeline(run):
     scen = os.path.join(run.scratch, "escen.ndjson")
     if run.replay:
         scen = os.path.join(run.replay, "scen-enum.ndjson")
+        if not os.path.exists(scen):
+            run.extra["enum_summary"] = {}
+            return None
     else:
         run.model_check("MC_Enum", "SPECIFICATION Spec\nCONSTANTS\n  MaxLen = %d\nINVARIANTS A_GenIffOK A_RunAsStated\nCHECK_DEADLOCK FALSE\n" % maxlen, workers=16, timeout=3000)
         out = run.tlc("Export_Enum", "INIT Init\nNEXT Next\nCONSTANTS\n  ScenOut = \"%s\"\n  MaxLen = %d\nCHECK_DEADLOCK FALSE\n" % (scen, maxlen), workers=1, timeout=3000, role="export")
